@@ -157,11 +157,11 @@ impl DecHistory {
         let mut h = crate::fw::fnv(&self.stream);
         h = crate::fw::mix(h, encs::index_of(self.enc) as u64 * 64 + self.mode as u64 * 16 + self.sink as u64 * 2 + self.repl as u64);
         for c in &self.cuts {
-            h = crate::fw::mix(h, *c as u64 + 1);
+            h = crate::fw::mix(h, (*c as u64).wrapping_add(1));
         }
         h = crate::fw::mix(h, 0xFFFF + self.last_on_empty as u64);
         for c in &self.caps {
-            h = crate::fw::mix(h, *c as u64 + 7);
+            h = crate::fw::mix(h, (*c as u64).wrapping_add(7));
         }
         h
     }
